@@ -196,7 +196,10 @@ def run_tg_op(case):
             elif kind == "append":
                 res = tg.appendTextgrid(other, op["only"])
             elif kind == "merge":
-                res = tg.mergeTiers(op["names"], op["preserve"])
+                names_arg = None if op["names"] is None else list(op["names"])
+                res = tg.mergeTiers(names_arg, op["preserve"])
+                if names_arg != op["names"]:
+                    raise Violation("argument-mutated:merge", f"mergeTiers changed the list of names it was given: {op['names']} -> {names_arg}")
             elif kind == "new":
                 res = tg.new()
             elif kind == "validate":
